@@ -1054,6 +1054,9 @@ pub fn run_c14(report: &Report) {
         run_locality!(report, total, c32_64_24, u32, all_words(&few32, len), 24, 3, 5, format!("strings over 5 boundary words of length {len}"));
     }
     run_schedules(report, &mut total, q);
+    super::pyfront::sweep(report, "chain_locality", if q { 3 } else { 4 },
+        "Python ChainCoder: every 7-word string over 3 (thorough 4) boundary words (holds all 5 positions) and every 3-4 word string (runs out of data on the way): the three call forms agree; replacing the model of one position by 3 alternatives changes no other position and not the point at which the data runs out; every single-bit flip changes at most one position",
+        &[], &[]);
     finish(report, total, true);
 }
 
